@@ -64,7 +64,7 @@ theorem precheckB_iff_validB : ∀ (a b c d e f g h i j k l m n o : Bool),
 theorem precheck_of_valid (c : Config) (h : valid c = true) : precheck .repaired c = .ok () := by
   have := precheckB_iff_validB c.exportIsDict c.exportHasPickle c.initialIndexIsInt c.strategyValid c.outDir c.resume
     (decide (c.initialIndex < c.total)) (c.transitionsArity == 1) (c.inspectArity == 1 || c.inspectArity == 2)
-    (c.terminateArity == 1) c.targetScalar c.sanity c.typesOk (c.controllerNone && c.nSamples != 0) c.fresh0
+    (c.terminateArity == 1) c.targetScalar c.sanity c.typesOk c.ctrlBad c.fresh0
   unfold valid at h
   rw [h] at this
   unfold precheck
@@ -89,7 +89,7 @@ theorem invalid_rejected_kind (c : Config) (h : valid c = false) : ∃ e, accept
     intro hp
     have := precheckB_iff_validB c.exportIsDict c.exportHasPickle c.initialIndexIsInt c.strategyValid c.outDir c.resume
       (decide (c.initialIndex < c.total)) (c.transitionsArity == 1) (c.inspectArity == 1 || c.inspectArity == 2)
-      (c.terminateArity == 1) c.targetScalar c.sanity c.typesOk (c.controllerNone && c.nSamples != 0) c.fresh0
+      (c.terminateArity == 1) c.targetScalar c.sanity c.typesOk c.ctrlBad c.fresh0
     unfold precheck at hp
     unfold valid at h
     rw [hp, h] at this
@@ -116,10 +116,12 @@ theorem rng_stack_balanced (c : Config) (s : Shape) (h : accepts .repaired c = .
     rw [← h]; exact loop_balanced c _ _
 
 /-- non-vacuity: a valid configuration with output directory, MAP iterations, early termination and final position -/
-example : valid { total := 4, initialIndex := 1, outDir := true, nSamples := 0, controllerNone := true,
-                  terminateAt := some 2, returnFinal := true, inspectArity := 2 } = true ∧
-    accepts .repaired { total := 4, initialIndex := 1, outDir := true, nSamples := 0, controllerNone := true,
-                        terminateAt := some 2, returnFinal := true, inspectArity := 2 } =
+example : valid { total := 4, initialIndex := 1, outDir := true, nSamplesAt := [3, 2, 0, 1],
+                  ctrlNoneAt := [false, false, true, false], terminateAt := some 2, returnFinal := true,
+                  inspectArity := 2 } = true ∧
+    accepts .repaired { total := 4, initialIndex := 1, outDir := true, nSamplesAt := [3, 2, 0, 1],
+                        ctrlNoneAt := [false, false, true, false], terminateAt := some 2, returnFinal := true,
+                        inspectArity := 2 } =
       .ok { iterations := 2, nResult := 1, arity := 2, writesFiles := true, stackDelta := 0 } := by decide
 
 /-! **The driver as found violates the property** (documented witnesses, replayed on the real code by the check) -/
